@@ -763,4 +763,78 @@ func runC04(r *evid.Run) {
 	}
 	r.Set("traces_validated_against_impl", int64(len(cases)))
 	r.Set("evaluations", int64(len(cases)))
+
+	// ---- bonds inside whole machines (BMFabric): every external stream is the reference's ----------------------
+	// A bond that delivers every value exactly once and in order makes every external output deliver the
+	// closed-form stream of BMFabric (checked by TLC under every schedule, see C02).  Here each back-end is
+	// compared with the reference on its own; a divergence is attributed to a recorded finding only when
+	// that finding's root event was observed during the run on that back-end.
+	var fabMachines, fabAgree int64
+	for i, topo := range []string{"chain2", "fanin", "fanout", "fanout2", "merge", "sum", "threein", "twoout"} {
+		fs, tr, ok := genFabrics(r, scratch, topo, 120, r.Pick(10, 40), r.Seed*53+int64(i))
+		if !ok {
+			return
+		}
+		_ = tr
+		for _, f := range fs {
+			bm, err := buildFabric(f)
+			if err != nil {
+				r.Inconclusive("cannot build %s: %v", f.Topo, err)
+				return
+			}
+			run := runFabric(f, bm, nil)
+			fabMachines++
+			class := f.Topo + ":" + f.EnvMode
+			if f.SimDelay != "none" {
+				class += ":sim-delay-" + strings.SplitN(f.SimDelay, ":", 2)[0]
+			}
+			ctx := map[string]interface{}{"machine": f, "reference": f.Outs}
+			diverges := func(got [][]uint64) string {
+				for o := 0; o < f.Nout; o++ {
+					for i, v := range f.Outs[o] {
+						if o >= len(got) || i >= len(got[o]) {
+							return fmt.Sprintf("output o%d delivers %d values, the network delivers at least %d", o, len(got[o]), len(f.Outs[o]))
+						}
+						if got[o][i] != v {
+							return fmt.Sprintf("value %d on output o%d is %d, every bond delivering each value once and in order gives %d", i, o, got[o][i], v)
+						}
+					}
+				}
+				return ""
+			}
+			okBoth := true
+			if run.SimErr != nil {
+				r.Violate("sim:fabric:cannot-run:"+class, fmt.Sprintf("the simulator cannot run a machine (%s): %v", class, run.SimErr), ctx)
+				okBoth = false
+			} else if d := diverges(run.Sim.Outs); d != "" {
+				ctx["simulator"] = run.Sim.Outs
+				switch {
+				case run.SimRefire:
+					r.Violate("sim:dup:"+causeF1, "simulator, machine "+class+": "+d, ctx)
+				case run.SimStale:
+					r.Violate("sim:loss:"+causeF2, "simulator, machine "+class+": "+d, ctx)
+				default:
+					r.Violate("sim:fabric:"+class, "simulator, machine "+class+" (none of the recorded root events occurred): "+d, ctx)
+				}
+				okBoth = false
+			}
+			if run.HdlErr != nil {
+				r.Violate("hdl:fabric:cannot-run:"+class, fmt.Sprintf("the generated Verilog of a machine (%s) cannot be executed: %v", class, run.HdlErr), ctx)
+				okBoth = false
+			} else if d := diverges(run.Hdl.Outs); d != "" {
+				ctx["generated_verilog"] = run.Hdl.Outs
+				if run.HdlRefire {
+					r.Violate("hdl:dup:"+causeF1, "generated Verilog, machine "+class+": "+d, ctx)
+				} else {
+					r.Violate("hdl:fabric:"+class, "generated Verilog, machine "+class+" (the recorded root event did not occur): "+d, ctx)
+				}
+				okBoth = false
+			}
+			if okBoth {
+				fabAgree++
+			}
+		}
+	}
+	r.Set("whole_machines_compared_with_the_reference_streams", fabMachines)
+	r.Set("whole_machines_delivering_the_reference_streams", fabAgree)
 }
